@@ -29,7 +29,8 @@ def strategy(tier):
                                dup_tr=0.3, p_orth_root=0.45, n_events=2, min_tr=6, max_tr=16,
                                p_wild=0.5))
         ops = draw(gen.histories(spec, 6, 20, n_events=2, advances=True, delays=True))
-        return {'spec': spec, 'ops': ops, 'faults': draw(gen.faults(ops))}
+        return {'spec': spec, 'ops': ops, 'faults': draw(gen.faults(ops)),
+                'empty_event': draw(st.integers(0, 3)) == 0}
     return cases()
 
 
